@@ -94,6 +94,9 @@ def roles(rep, ex: Explorer):
 
     def setup2(I):
         s, es = _mk(I)
+        # the state may hold whatever earlier queries left behind (unknown further entries): the CNFs of this query must
+        # not depend on it
+        I.deref(es).sym = ("left by earlier queries",)
         return [s, make_query()], {}
 
     paths = ex.run(qual2, setup2, summaries=summ, key="cnfquery")
@@ -109,6 +112,17 @@ def roles(rep, ex: Explorer):
             got = f"[{F.show(f0)}, {F.show(f1)}]"
         else:
             got = repr(vw)[:200]
+            rv_ = p.outcome[1]
+            if isinstance(rv_, Sym) and isinstance(rv_.label, tuple) and rv_.label[:1] == ("item",) and "dictitem" in repr(rv_.label[1]):
+                # the CNFs are looked up in something an earlier query left in the state.  Keyed by the formulas themselves this
+                # could be an exact memo (the analysis cannot tell: exit 2); keyed by their *text* it is not - str() of a
+                # formula is a presentation (pysmt abbreviates deep sub-terms), different formulas share it
+                if "'str'" in repr(rv_.label[2]) or "'repr'" in repr(rv_.label[2]) or "'text'" in repr(rv_.label[2]):
+                    n += 1
+                    rep.violation("CNF.roles", site2, "query CNFs from an earlier query", "the CNFs of a query are those of its own formulas, whatever was asked before",
+                                  extracted=f"looked up under the text of the formulas: {F.show_desc(rv_.label[2])[:120]}", required="[Q.A∧Q.B, Q.A∧¬Q.B] of this query", function=site2)
+                    continue
+                raise AnalysisError(f"{site2}: the CNFs of a query are taken from state left by earlier queries ({F.show_desc(rv_.label[2])[:100]}); cannot decide that they are this query's")
         n += 1
         rep.check(ok, "CNF.roles", site2, "query CNFs", "query_to_cnf returns [CNF(A∧B), CNF(A∧¬B)] in this order", extracted=got, required="[Q.A∧Q.B, Q.A∧¬Q.B]", function=site2)
     rep.floor("CNF.roles query_to_cnf paths", n, 1)
